@@ -1,6 +1,6 @@
 //@unit xsched
 //@exec
-//@props C08,C09,C10
+//@props C07,C08,C09,C10
 // BOUNDED executable stand-in for the scheduling requests and the four action kinds (labelled bounded, never counted as
 // proved). The REAL text of GlobalScheduler::{new, time, schedule_from, schedule_event_from, schedule_keyed_event_from,
 // schedule_periodic_event_from, schedule_keyed_periodic_event_from}, ActionKey, AutoActionKey, SchedulingError, Action,
